@@ -171,3 +171,24 @@ def fit_transforms(dist):
                         and any(isinstance(x, ast.Name) and x.id == el.id for x in ast.walk(v)):
                     out[slot] = (ln, ast.unparse(node))
     return out
+
+
+def rvs_override(dist):
+    """(line, source) when the family's *_gen class replaces ``rvs`` itself (not ``_rvs``) by something that post-processes the
+    draws - then ``rvs(*shapes, loc, scale)`` is NOT loc + scale * standard draw and need not follow the family's own cdf;
+    None for the generic rvs."""
+    c = _load()
+    gen = c["gens"].get(c["inst"].get(dist))
+    if gen is None:
+        raise AnalysisError(f"scipy distribution {dist} not found in _continuous_distns.py")
+    m = next((m for m in gen.body if isinstance(m, ast.FunctionDef) and m.name == "rvs"), None)
+    if m is None:
+        return None
+    rets = [n for n in _own_nodes(m) if isinstance(n, ast.Return) and n.value is not None]
+    for r in rets:
+        v = r.value
+        plain = isinstance(v, ast.Call) and isinstance(v.func, ast.Attribute) and v.func.attr == "rvs" and isinstance(v.func.value, ast.Call) \
+            and isinstance(v.func.value.func, ast.Name) and v.func.value.func.id == "super"
+        if not plain:
+            return (r.lineno, ast.unparse(r))
+    return None
